@@ -34,7 +34,7 @@ pub fn bounds(tier: Tier) -> Bounds {
             e2_term_cap: env("VERIF_RAFT_E2_TERM_CAP", 8),
         },
         Tier::Thorough => Bounds {
-            e1_depth: env("VERIF_RAFT_E1_DEPTH", 12) as u32,
+            e1_depth: env("VERIF_RAFT_E1_DEPTH", 10) as u32,
             e1_max_dups: env("VERIF_RAFT_E1_DUPS", 2) as u8,
             e1_max_appends: env("VERIF_RAFT_E1_APPENDS", 2) as u8,
             e1_state_cap: env("VERIF_RAFT_E1_CAP", 60_000_000),
